@@ -51,6 +51,7 @@ class Variant:
         self.cfgs = []
         self.shape = None        # 'unit' | ('newtype', ty) | ('struct', [Field]) | ('tuple', [ty])
         self.ruma_enum = {}
+        self.is_default = False  # carries #[default]
 
 
 def read_attrs(t, i):
@@ -305,6 +306,8 @@ def parse_variants(t, where):
             elif name == "ruma_enum":
                 for k, x in kv_items(body, where):
                     v.ruma_enum[k] = x
+            elif name == "default":
+                v.is_default = True
         vs.append(v)
     return vs
 
